@@ -206,6 +206,11 @@ func processPolicies(
 
 	processedPolicies := make(map[PolicyKey]*Policy)
 
+	listenerPorts := make(map[string]v1.PortNumber, len(gateways.Winner.Spec.Listeners))
+	for _, l := range gateways.Winner.Spec.Listeners {
+		listenerPorts[string(l.Name)] = l.Port
+	}
+
 	for key, policy := range pols {
 		var conds []conditions.Condition
 
@@ -246,7 +251,7 @@ func processPolicies(
 			continue
 		}
 
-		overlapConds := checkTargetRoutesForOverlap(targetedRoutes, routes)
+		overlapConds := checkTargetRoutesForOverlap(targetedRoutes, routes, listenerPorts)
 		conds = append(conds, overlapConds...)
 
 		conds = append(conds, validator.Validate(policy, globalSettings)...)
@@ -268,6 +273,7 @@ func processPolicies(
 func checkTargetRoutesForOverlap(
 	targetedRoutes map[types.NamespacedName]*L7Route,
 	graphRoutes map[RouteKey]*L7Route,
+	listenerPorts map[string]v1.PortNumber,
 ) []conditions.Condition {
 	var conds []conditions.Condition
 
@@ -275,14 +281,14 @@ func checkTargetRoutesForOverlap(
 		// We need to check if this route referenced in the policy has an overlapping
 		// hostname:port/path with any other route that isn't referenced by this policy.
 		// If so, deny the policy.
-		hostPortPaths := buildHostPortPaths(targetedRoute)
+		hostPortPaths := buildHostPortPaths(targetedRoute, listenerPorts)
 
 		for _, route := range graphRoutes {
 			if _, ok := targetedRoutes[client.ObjectKeyFromObject(route.Source)]; ok {
 				continue
 			}
 
-			if cond := checkForRouteOverlap(route, hostPortPaths); cond != nil {
+			if cond := checkForRouteOverlap(route, hostPortPaths, listenerPorts); cond != nil {
 				conds = append(conds, *cond)
 			}
 		}
@@ -293,8 +299,12 @@ func checkTargetRoutesForOverlap(
 
 // checkForRouteOverlap checks if the route references the same hostname:port/path combination
 // as a route referenced in a policy.
-func checkForRouteOverlap(route *L7Route, hostPortPaths map[string]string) *conditions.Condition {
-	for _, key := range hostPortPathKeys(route) {
+func checkForRouteOverlap(
+	route *L7Route,
+	hostPortPaths map[string]string,
+	listenerPorts map[string]v1.PortNumber,
+) *conditions.Condition {
+	for _, key := range hostPortPathKeys(route, listenerPorts) {
 		if val, ok := hostPortPaths[key]; ok {
 			conflictingRouteName := fmt.Sprintf("%s/%s", route.Source.GetNamespace(), route.Source.GetName())
 			msg := fmt.Sprintf("Policy cannot be applied to target %q since another "+
@@ -309,7 +319,9 @@ func checkForRouteOverlap(route *L7Route, hostPortPaths map[string]string) *cond
 }
 
 // hostPortPathKeys returns the hostname:port/path combinations that the route serves.
-func hostPortPathKeys(route *L7Route) []string {
+// A parentRef can attach the route to several listeners with different ports, so the port of each listener is
+// taken from listenerPorts (listener name to port); the attachment's ListenerPort only holds one of them.
+func hostPortPathKeys(route *L7Route, listenerPorts map[string]v1.PortNumber) []string {
 	var keys []string
 
 	for _, parentRef := range route.ParentRefs {
@@ -317,9 +329,13 @@ func hostPortPathKeys(route *L7Route) []string {
 			continue
 		}
 
-		port := parentRef.Attachment.ListenerPort
 		// AcceptedHostnames holds a list of hostnames per listener.
-		for _, hostnames := range parentRef.Attachment.AcceptedHostnames {
+		for listenerName, hostnames := range parentRef.Attachment.AcceptedHostnames {
+			port, ok := listenerPorts[listenerName]
+			if !ok {
+				port = parentRef.Attachment.ListenerPort
+			}
+
 			for _, hostname := range hostnames {
 				for _, rule := range route.Spec.Rules {
 					for _, match := range rule.Matches {
@@ -337,11 +353,11 @@ func hostPortPathKeys(route *L7Route) []string {
 
 // buildHostPortPaths returns the hostname:port/path combinations of the route that's referenced in the Policy,
 // mapped to the name of the route.
-func buildHostPortPaths(route *L7Route) map[string]string {
+func buildHostPortPaths(route *L7Route, listenerPorts map[string]v1.PortNumber) map[string]string {
 	hostPortPaths := make(map[string]string)
 
 	routeName := fmt.Sprintf("%s/%s", route.Source.GetNamespace(), route.Source.GetName())
-	for _, key := range hostPortPathKeys(route) {
+	for _, key := range hostPortPathKeys(route, listenerPorts) {
 		hostPortPaths[key] = routeName
 	}
 
